@@ -43,6 +43,11 @@ M = [
  ("M38-pad-randomize", "src/encodation/mod.rs", "(((149 * pos) % 253) + 1) as u16", "(((149 * pos) % 254) + 1) as u16", {"C02": "PAD-PATH"}),
  ("M39-write-eci-always", "src/data.rs", "    if let Some(eci) = eci {\n        encoder.write_eci(eci);\n    }", "    encoder.write_eci(eci.unwrap_or(3));", {"C14": "STR-BRANCH"}),
  ("M40-edifact-len-le3", "src/decodation/mod.rs", "        if data.len() <= 2 {", "        if data.len() <= 3 {", {"C04": "DEC-THRESH"}),
+ ("M41-x12-space-arg", "src/encodation/x12.rs", "            .symbol_size_left(1)\n            .ok_or(DataEncodingError::TooMuchOrIllegalData)?\n            == 0", "            .symbol_size_left(0)\n            .ok_or(DataEncodingError::TooMuchOrIllegalData)?\n            == 1", {"C02": "END-X12", "C18": "END-X12", "C01": "END-X12"}),
+ ("M42-c40-case-c", "src/encodation/c40.rs", "            (2, 1) => {\n                ctx.push(super::UNLATCH);", "            (2, 1) | (3, 1) => {\n                ctx.push(super::UNLATCH);", {"C02": "END-C40", "C01": "END-C40", "C18": "END-C40"}),
+ ("M43-edifact-end-space", "src/encodation/edifact.rs", "Some(space) if space <= 2 && ascii_size <= space => {", "Some(space) if space <= 3 && ascii_size <= space => {", {"C02": "END-EDIFACT", "C01": "END-EDIFACT", "C18": "END-EDIFACT"}),
+ ("M44-chien-range", "src/errorcode/decoding/mod.rs", "    for i in 0..=254 {", "    for i in 0..254 {", {"C03": "ROOT-COVER"}),
+ ("M45-frac-width", "src/encodation/planner/frac.rs", "pub(super) type C = u32;", "pub(super) type C = u16;", {"C11": "INV"}),
  ("M24-switch-insert", "src/encodation/planner/generic.rs", "                    switches.push((rest_len, EncodationType::$enum));", "                    switches.insert(0, (rest_len, EncodationType::$enum));", {"C18": "PLAN-MONO"}),
 ]
 def main():
